@@ -6,7 +6,9 @@ PATCH="$1"; TIER="$2"; shift 2
 cd /repo || exit 2
 [ -z "$(git status --porcelain --untracked-files=no)" ] || { echo "repo not clean"; exit 2; }
 git apply "$PATCH" || { echo "PATCH-DOES-NOT-APPLY $PATCH"; exit 2; }
-trap 'git -C /repo checkout -- .' EXIT
+# evidence written while a seeded change is applied must not replace the clean-tree evidence
+EVBAK=$(mktemp -d /tmp/evidence_bak.XXXXXX); cp -a /verif/evidence/. "$EVBAK"/ 2>/dev/null
+trap 'git -C /repo checkout -- .; rm -rf /verif/evidence; mkdir -p /verif/evidence; cp -a "$EVBAK"/. /verif/evidence/; rm -rf "$EVBAK"' EXIT
 for id in "$@"; do
   T0=$(date +%s)
   OUT=$(cd /verif && ./check "$id" "$TIER" 2>&1); RC=$?
